@@ -84,11 +84,31 @@ def j_node(node):
     raise ValueError(kind)
 
 
-def to_json(doc, comment=None):
+def to_json(doc, comment=None, form=None):
+    """form: None = keys in the usual order; 'reversed' = every object with its keys in reverse order ('<class>' last);
+    'extra' = every object additionally carries the keys real Dezyne emits and the parser ignores ('location', ...);
+    'reversed+extra' = both."""
     root = {'<class>': 'root', 'elements': [j_node(n) for n in doc], 'working-directory': '/wd'}
     if comment is not None:
         root['comment'] = {'<class>': 'comment', 'string': comment}
+    if form:
+        root = reshape(root, 'reversed' in form, 'extra' in form)
     return root
+
+
+def reshape(value, reverse, extra):
+    if isinstance(value, list):
+        return [reshape(v, reverse, extra) for v in value]
+    if isinstance(value, dict):
+        items = [(k, reshape(v, reverse, extra)) for k, v in value.items()]
+        if extra:
+            items = [('location', {'<class>': 'location', 'file-name': 'x.dzn', 'line': 1, 'column': 2, 'end': {'line': 3},
+                                   'offset': 0, 'length': 10})] + items + \
+                    [('unknown-metadata', [1, 'two', None]), ('elements-count', 3)]
+        if reverse:
+            items = list(reversed(items))
+        return dict(items)
+    return value
 
 
 # ---------------------------------------------------------------------------------------------
